@@ -38,6 +38,16 @@ STAGES = ['init', 'flux', 'vpar', 'pargrad', 'keep', 'pol', 'rho', 'phi', 'f_end
 def gen(rng, tier, idx):
     ckw = phys.gen_constants(rng, amplified=True)
     npts = ckw['npts']
+    if rng.random() < 0.2:
+        # spline degrees other than the shipped cubic ones (each dimension has its own)
+        ckw['splineDegrees'] = [rng.choice([3, 2, 4, 5]) for _ in range(4)]
+        if (ckw['splineDegrees'][0] == 3) != (ckw['splineDegrees'][1] == 3):
+            # the 2-D poloidal spline wants both of its bases of one kind (uniform cubic or general)
+            ckw['splineDegrees'][rng.randrange(2)] = ckw['splineDegrees'][0] if ckw['splineDegrees'][0] != 3 else ckw['splineDegrees'][1]
+            if (ckw['splineDegrees'][0] == 3) != (ckw['splineDegrees'][1] == 3):
+                ckw['splineDegrees'][0] = ckw['splineDegrees'][1] = rng.choice([2, 4, 5])
+        for d in range(4):
+            npts[d] = max(npts[d], ckw['splineDegrees'][d] + 3)
     k = rng.choice([2, 2, 3])
     grids = [[1, 1]] + phys.pick_grids(rng, npts, k)
     sched = simworld.random_sched(rng, 0)
@@ -240,8 +250,12 @@ def shrink(case):
         c = dict(case)
         c['ckw'] = dict(case['ckw'], iotaVal=0.0)
         yield c
+    if case['ckw'].get('splineDegrees') and case['ckw']['splineDegrees'] != [3, 3, 3, 3]:
+        c = dict(case)
+        c['ckw'] = dict(case['ckw'], splineDegrees=[3, 3, 3, 3])
+        yield c
     for d in range(4):
-        lo = 7 if d == 2 else 5
+        lo = max(7 if d == 2 else 5, (case['ckw'].get('splineDegrees') or [3, 3, 3, 3])[d] + 3)
         if case['ckw']['npts'][d] > lo:
             n2 = list(case['ckw']['npts'])
             n2[d] -= 1
